@@ -1239,6 +1239,13 @@ class Interp:
                 return dict.fromkeys(args[0], args[1] if len(args) > 1 else None)
             except TypeError:
                 raise AnalysisError('dict.fromkeys of unhashable constants')
+        if mod == 'math' and name in ('log10', 'log', 'log2', 'floor', 'ceil', 'trunc', 'sqrt', 'pow', 'fabs') and args and not kwargs and \
+                all(isinstance(a, (int, float)) and not isinstance(a, bool) for a in args):
+            import math as _math
+            try:
+                return getattr(_math, name)(*args)
+            except (ValueError, OverflowError, ZeroDivisionError) as e:
+                raise AnalysisError('math.%s%r fails: %s' % (name, tuple(args), e))
         if mod == 'collections' and name == 'OrderedDict' and not args:
             return dict(kwargs)
         if mod == 'hashlib' and name in ('sha256', 'sha1', 'sha512', 'new', 'ripemd160'):
@@ -1360,6 +1367,11 @@ class Interp:
         if name == 'to_bytes':
             width = args[0] if args else kwargs.get('length')
             order = args[1] if len(args) > 1 else kwargs.get('byteorder', 'big')
+            if getattr(self, 'concrete_bytes', False) and isinstance(base, int) and not isinstance(base, bool) and isinstance(width, int) and isinstance(order, str):
+                try:
+                    return base.to_bytes(width, order)
+                except (OverflowError, ValueError) as e:
+                    raise AnalysisError('constant to_bytes fails: %s' % e)
             return S(('int2bytes', term(base), term(width), term(order)), 'bytes')
         if name == 'hex' and not args:
             return S(('hex', term(base)), 'str')
@@ -1406,6 +1418,8 @@ class Interp:
                     return args[0]
                 return S(('int', term(args[0])), 'int')
             return S(('int', term(args[0]), term(args[1])), 'int')
+        if name == 'bytearray' and len(args) == 1 and getattr(self, 'concrete_bytes', False) and isinstance(args[0], (bytes, list)) and is_conc(args[0]):
+            return list(args[0])        # a mutable sequence of byte values
         if name == 'bytes' and len(args) == 1:
             a = args[0]
             if isinstance(a, bytes):
